@@ -402,7 +402,16 @@ func cmdCheck(args []string) int {
 			data, _ := json.MarshalIndent(tape, "", " ")
 			os.WriteFile(tapePath, data, 0o644)
 			if rr.run.NoReplay {
-				inconclusive = append(inconclusive, fmt.Sprintf("%s: violation %s cannot be replayed natively", rr.run.Name, v.Label))
+				// harness depends on fakes that cannot be injected into a native build
+				// (methods of library types): the solver's counterexample is reported
+				// as it stands, the tape documents the input
+				c := confirmed{label: v.Label, replay: tapePath, msg: v.Msg + " [solver model; not replayed natively]"}
+				for _, kf := range known {
+					if kf.Kind == "finding" && kf.Property == id && kf.Key == v.Label {
+						c.known, c.text = true, kf.Text
+					}
+				}
+				reported = append(reported, c)
 				continue
 			}
 			o := nativeReplay(repo, tape, tapePath)
